@@ -117,7 +117,7 @@ def gen_scenario(rng):
             o = rng.choice([i for i, x in enumerate(objects) if x['kind'] in ('table', 'rec')])
         c = rng.randrange(len(confs))
         via = rng.choice(['explicit', 'explicit', 'global', 'palette_class', 'palette_obj', 'custom_palette',
-                          'custom_palette2'])
+                          'custom_palette2', 'custom_palette3', 'custom_palette4'])
         mode = rng.choice(['whole', 'whole', 'lines', 'lines_join', 'whole_then_lines', 'lines_twice', 'interleaved',
                            'copy', 'concat', 'format', 'plain', 'slice', 'fixed', 'compared'])
         if objects[o]['kind'] in ('rec', 'hdoc', 'ppwrap'):
@@ -130,7 +130,8 @@ def gen_scenario(rng):
                              'long_lived_conf': long_lived})
             if objects[o]['kind'] == 'rec' and rng.random() < 0.5:
                 requests[-1]['touch_columns'] = True
-            if via in ('explicit', 'palette_class', 'custom_palette', 'custom_palette2') and not long_lived and rng.random() < 0.4:
+            if via in ('explicit', 'palette_class', 'custom_palette', 'custom_palette2', 'custom_palette3',
+                       'custom_palette4') and not long_lived and rng.random() < 0.4:
                 requests[-1]['discard_conf'] = True
             if via == 'global' and objects[o]['kind'] not in ('hdoc', 'ppwrap') and rng.random() < 0.5:
                 requests[-1]['switch_conf'] = confs[(c + 1) % len(confs)]
@@ -172,7 +173,9 @@ def gen_scenario(rng):
     # the first table is rendered with both custom palettes (two classes called the same) under one long-lived
     # configuration, in either order
     c = rng.randrange(len(confs))
-    for via in rng.sample(['custom_palette', 'custom_palette2'], 2) + ['custom_palette']:
+    # (... and with the palette that has a parent palette, before or after the parent palette was used on its own)
+    for via in rng.sample(['custom_palette', 'custom_palette2'], 2) + ['custom_palette'] + \
+            rng.sample(['custom_palette3', 'custom_palette4'], 2):
         requests.append({'obj': 0, 'conf': c, 'no_color': False, 'mode': 'whole', 'via': via, 'long_lived_conf': True})
         if cur_fmt.get(0):
             requests[-1]['set_fmt'] = cur_fmt[0]
